@@ -205,6 +205,8 @@ struct RunResult {
 
 fn execute(req: &Req, plan: &WritePlan) -> Result<RunResult, String> {
     let mut w = World::new();
+    // 64 KiB strings written one byte per wake-up need a few hundred thousand polls
+    w.poll_budget = 6_000_000;
     match req {
         Req::Connect(spec) => {
             plan.install(&w);
